@@ -20,6 +20,11 @@ CLAIMED = {
         text="Per instantiation backup<probe<S,N,T,M>> the path condition of the single backend query and every output component are evaluated on all 13^N products of weak orderings of (c_i,lo_i,hi_i): "
              "queried iff inside the closed box; outputs routed from backend value or default. Complete for all coordinate values since inputs are touched only by comparisons.",
         note="quick: 11 instantiations N<=3; thorough: N,M in 1..4 x 5 coordinate types; NaN excluded"),
+    "C13": dict(
+        level="exploration", design="5/C13", technique="compile witnesses (must-compile and must-fail programs over a generated stack grammar, decided by g++ -fsyntax-only)",
+        text="Generated programs: every API operation of every stack in the universe must type-check (explicit instantiation forces all non-template member bodies), conversions between compatible stacks must type-check, "
+             "and each stated kind constraint has a must-fail witness that has to be rejected by that constraint. Quick: pairwise layer-adjacency cover; thorough: full depth<=3 closure plus seeded depth 4-5 samples.",
+        note="oracle for well-kinded = engine/universe.py grammar; g++ 12 decides; clang cross-check not used for verdicts"),
     "C20": dict(
         level="exploration", design="5/C20", technique="compile-time witness enumeration (static_assert units decided by the type checker)",
         text="Exhaustive enumeration, within the stated bounds, of index sequences; each case is a static_assert whose truth the C++ type checker "
